@@ -47,14 +47,14 @@ def null_input(src, b, x):
     return ok, f"celpy {' '.join(argv)}: printed {out[0]}, expected the JSON of {val!r}"
 
 
-def _doc(a, bad):
-    return "this is not json" if bad else json.dumps({"a": a, "b": 7})
+def _doc(a, bad, extra=False):
+    return "this is not json" if bad else json.dumps({"a": a, "b": 7, **({"c": 1} if extra else {})})
 
 
-def stream(src, k, bad, b, mode, slurp, vals):
+def stream(src, k, bad, b, mode, slurp, vals, hetero=False):
     opt, name = mode
     base = (["-b"] if b else []) + (["-s"] if slurp else []) + [f"-{opt}", name, src]
-    docs = [_doc(vals[f"a{i}"], bad[i]) for i in range(k)]
+    docs = [_doc(vals[f"a{i}"], bad[i], hetero and i % 2 == 0) for i in range(k)]
     status, out, _ = _main(base, "".join(d + "\n" for d in docs))
     singles = [_main(base, d + "\n") for d in docs]
     worst = max(s for s, _, _ in singles)
